@@ -99,6 +99,26 @@ def run_trace_job(job):
                                              profile=job["profile"], features=job.get("features"), driver=job["driver"]))
             if part != trace:
                 os.remove(part)
+    # synchronisation log (multi_driver): validated by its own trace spec
+    syncf = trace + ".sync"
+    if job.get("monitors_sync") and os.path.exists(syncf):
+        for mod in job["monitors_sync"]:
+            r = tlc.validate_trace(mod, syncf, timeout=job.get("tlc_timeout", 1800))
+            res["monitors"].append(dict(module=mod, generated=r["generated"], distinct=r["distinct"], accepted=r["accepted"],
+                                        wall=r["wall"], tool_error=r["tool_error"], rejected=r["rejected"]))
+            for t in r["fails"]:
+                try:
+                    f = dict(property=t[1], formula=t[2], line=t[3], p=t[4][0], i=t[4][1], op=t[4][2], ma=0,
+                             witness=t[5] if len(t) > 5 else None, source=mod, gen=job["gen"], profile=job["profile"],
+                             features=job.get("features"), driver=job["driver"])
+                    res["fails"].append(f)
+                    failing_ps.add(f["p"])
+                except Exception:
+                    pass
+    try:
+        os.remove(syncf)
+    except OSError:
+        pass
     # keep the programs of failing cases for the replay files
     progmap = {}
     if failing_ps and os.path.exists(progs):
